@@ -35,7 +35,7 @@ def encFl : Fl → String
   | .exited => "exited"
 
 def encState (s : St) : String :=
-  s!"buf={encStr (cat s.buffer)} q={encList encItem s.queue} fl={encFl s.fl} pend={encList encStr s.pending} lost={encList encStr s.lost} app={encBool s.appOn} loop={s.loopGen}/{encBool s.loopOpen}"
+  s!"buf={encStr (cat s.buffer)} q={encList encItem s.queue} fl={encFl s.fl} pend={encList encStr s.pending} lost={encList encStr s.lost} app={encBool s.appOn} exit={encBool s.exiting} loop={s.loopGen}/{encBool s.loopOpen}"
 
 def parseOp : List String → Option Op
   | ["w", t, d] => do pure (.write (← decNat t) (← decStr d))
@@ -48,6 +48,7 @@ def parseOp : List String → Option Op
   | ["newloop"] => some .newLoop
   | ["closeloop"] => some .closeLoop
   | ["inval"] => some .inval
+  | ["exit"] => some .exit
   | _ => none
 
 structure DSt where
@@ -109,6 +110,11 @@ def stepLine (d : DSt) (toks : List String) : DSt × String :=
     match decBool r with
     | some r => let s := init r; ({ d with s := s }, " | " ++ encState s)
     | none => (d, "bad-op")
+  | ["runexit"] =>
+    -- one loop turn: the oldest accepted callback, `Application.exit()` queued right behind it, then the
+    -- task the callback created (inside the exit-requested phase), then `run_async` resumes
+    let s' := step (step (step d.s .exit) .run) .stop
+    ({ d with s := s' }, reply d.s s')
   | ["settle"] =>
     let s' := settle 100000 d.s
     ({ d with s := s' }, reply d.s s')
@@ -125,7 +131,7 @@ def stepLine (d : DSt) (toks : List String) : DSt × String :=
     match LockDrv.stepLine d.l toks with
     | some (l', r) => ({ d with l := l' }, r)
     | none => (d, "bad-op")
-  | "cinit" :: _ | "center" :: _ | "cstep" :: _ | "cstop" :: _ | "cstart" :: _ | "cinval" :: _ =>
+  | "cinit" :: _ | "center" :: _ | "cstep" :: _ | "cstop" :: _ | "cstart" :: _ | "cinval" :: _ | "cexit" :: _ =>
     match C20Chain.stepLine d.c toks with
     | some (c', r) => ({ d with c := c' }, r)
     | none => (d, "bad-op")
